@@ -14,6 +14,9 @@ __all__ = ["Engine", "SBool", "SInt", "Abort", "Inconclusive", "cur", "sbool", "
            "s_and", "s_or", "s_not", "s_ite", "is_sym", "zexpr"]
 
 
+_CUR = [None]
+
+
 class Abort(BaseException):
     """Current path is infeasible or cut; BaseException so repo code's `except Exception` never sees it."""
 
@@ -27,10 +30,15 @@ class StopExploration(BaseException):
 
 
 class Inconclusive(BaseException):
-    """The engine cannot continue soundly (unknown from solver, unsupported operation, proxy escape)."""
+    """The engine cannot continue soundly (unknown from solver, unsupported operation, proxy escape).
+    Some repo code uses bare `except:`; the engine remembers every Inconclusive raised during a path and re-raises it
+    when the path ends, so a swallowed one can never turn into a pass."""
 
-
-_CUR = [None]
+    def __init__(self, *a):
+        BaseException.__init__(self, *a)
+        e = _CUR[0]
+        if e is not None and getattr(e, "pending_inconclusive", None) is None:
+            e.pending_inconclusive = self
 
 
 def cur():
@@ -344,8 +352,11 @@ class Engine(object):
                 self.sample_fn = None
                 self.solver.push()
                 _CUR[0] = self
+                self.pending_inconclusive = None
                 try:
                     fn(self)
+                    if self.pending_inconclusive is not None:
+                        raise self.pending_inconclusive
                     if self._aborted:
                         # an Abort was raised but the code under test swallowed it
                         self.poisoned += 1
